@@ -205,3 +205,16 @@ M("viewbox-three-numbers-accepted", ["C11"], "an incomplete viewBox keeps its pa
 M("scale-six-decimals", ["C11"], "scale printed with 6 decimals", ('                return "translate(%s, %s) scale(%s, %s)" % (\n                    Length.str(translate_x),\n                    Length.str(translate_y),\n                    Length.str(scale_x),\n                    Length.str(scale_y),', '                return "translate(%s, %s) scale(%s, %s)" % (\n                    Length.str(translate_x),\n                    Length.str(translate_y),\n                    "%.6f" % scale_x,\n                    "%.6f" % scale_y,'))
 M("svg-height-defaults-to-width", ["C11"], "missing height falls back to the viewBox width", ("                        height = s.viewbox.height if s.viewbox is not None else 1000", "                        height = s.viewbox.width if s.viewbox is not None else 1000"))
 M("nested-zero-returns-again", ["C11", "C10"], "a zero-sized nested svg ends the parse again", ("                            if context is None:\n                                return s  # The document itself is not rendered.", "                            if True:\n                                return s  # The document itself is not rendered."))
+
+# ---- lengths (C12) ---------------------------------------------------------------------------------------
+M("pc-is-12px", ["C12", "C04"], "pica resolved as 12 user units", ('        if self.units == "pc":\n            return self.amount * 16.0\n        if self.units == "em":', '        if self.units == "pc":\n            return self.amount * 12.0\n        if self.units == "em":'))
+M("mm-constant-typo", ["C12"], "mm constant mistyped", ('            return self.amount * ppi * 0.0393701\n        if self.units == "cm":', '            return self.amount * ppi * 0.0397301\n        if self.units == "cm":'))
+M("percent-ignores-string-reference", ["C12"], "a percentage of a string reference is returned unresolved", ("            elif isinstance(relative_length, (str, Length)):\n                length = relative_length * self", "            elif isinstance(relative_length, (Length,)):\n                length = relative_length * self"))
+M("em-falls-back-to-16", ["C12"], "em guessed as 16px when the font size is missing", ('            if font_size is None:\n                return self\n            return self.amount * float(font_size)', '            if font_size is None:\n                return self.amount * 16.0\n            return self.amount * float(font_size)'))
+M("vw-uses-height", ["C12"], "vw resolved against the viewBox height", ('            return self.amount * v.width / 100.0', '            return self.amount * v.height / 100.0'))
+M("iadd-cm-mm-factor", ["C12"], "cm + mm adds millimetres as centimetres", ('            if other.units == "mm":\n                self.amount += other.amount / 10.0', '            if other.units == "mm":\n                self.amount += other.amount * 10.0'))
+M("truediv-pc-pt", ["C12"], "pc / pt uses the wrong ratio", ('                return self.amount / (other.amount / 12.0)', '                return self.amount / (other.amount * 12.0)'))
+M("lt-compares-amounts", ["C12"], "ordering compares raw amounts", ("    def __lt__(self, other):\n        return (self - other).amount < 0.0", "    def __lt__(self, other):\n        return self.amount < Length(other).amount"))
+M("eq-tolerance-wide", ["C12"], "equality with a one percent tolerance", ("        if s is not None:\n            o = other.in_pixels()\n            if o is not None:\n                if abs(s - o) <= ERROR:", "        if s is not None:\n            o = other.in_pixels()\n            if o is not None:\n                if abs(s - o) <= 0.01 * abs(s):"))
+M("to-cm-uses-mm-constant", ["C12"], "to_cm divides by the mm constant", ("        v = value / (ppi * 0.393701)\n        return Length(\"%scm\" % (Length.str(v)))", "        v = value / (ppi * 0.0393701)\n        return Length(\"%scm\" % (Length.str(v)))"))
+M("sub-in-place-alias", ["C12"], "a - b mutates b through the negation", ("    def __isub__(self, other):\n        if isinstance(other, (str, float, int)):\n            other = Length(other)\n        self += -other\n        return self", "    def __isub__(self, other):\n        if isinstance(other, (str, float, int)):\n            other = Length(other)\n        other.amount = -other.amount\n        self += other\n        return self"))
